@@ -50,7 +50,7 @@ Scope(nm, sc) ==
   ELSE "g"
 Target(nm, sc) == [t |-> "name", n |-> nm, s |-> IF Len(sc) = 0 THEN "g" ELSE "l"]
 Res(n, sc) ==
-  CASE n.t \in {"int", "float", "bool", "str"} -> <<n, sc>>
+  CASE n.t \in {"int", "float", "bool", "str", "bigint"} -> <<n, sc>>
     [] n.t = "name" -> << [t |-> "name", n |-> n.n, s |-> Scope(n.n, sc)], sc >>
     [] n.t = "list" -> LET r == ResSeq(n.e, sc) IN << [t |-> "list", e |-> r[1]], r[2] >>
     [] n.t = "bin" -> LET l == Res(n.l, sc) r == Res(n.r, l[2]) IN << [t |-> "bin", op |-> n.op, l |-> l[1], r |-> r[1]], r[2] >>
@@ -203,6 +203,7 @@ ResumeGen(m, pid, p, f, j) ==
 StepEval(m) ==
   LET c == m.cors[m.cur]  n == c.ctl IN
   CASE n.t \in {"int", "float", "bool", "str"} -> Go(SetC(m, RetC(c, Lit(n))))
+    [] n.t = "bigint" -> UnspecR       \* literal outside the model's integer range
     [] n.t = "name" -> LET r == Lookup(m, c, n) IN IF IsErr(r) THEN UnspecR ELSE Go(SetC(m, RetC(c, r.val)))
     [] n.t = "fn" -> Go(SetC(m, RetC(c, FnVal(n, c.fr))))
     [] n.t = "list" -> IF Len(n.e) = 0 THEN Go(SetC(m, RetC(c, ArrV(<<>>))))
@@ -247,6 +248,7 @@ CallPrim(m, c1, fv, args, calledAs) ==
     [] b = "aton" -> LET r == Aton(args[1]) IN
                      IF IsErr(r) THEN InPrim(FromErr(r, "ATON", <<args[1]>>), calledAs, args) ELSE Go(SetC(m, RetC(c1, r.val)))
     [] b = "read" -> IF Len(m.stdin) = 0 THEN InPrim(Raise("read", "read", "READ", <<>>), calledAs, args)
+                     ELSE IF Len(Head(m.stdin)) = 0 \/ Last(Head(m.stdin)) # "\n" THEN UnspecR   \* a last line without line break: README silent
                      ELSE Go(SetC([m EXCEPT !.stdin = Tail(@)], RetC(c1, StrV(Head(m.stdin)))))
     [] b = "exit" -> UnspecR
 
